@@ -1308,6 +1308,9 @@ class Scene(Geometry3D):
                 if result.geometry[geometry].vertices.shape[1] == 2:
                     # if our scene is 2D only scale in 2D
                     result.geometry[geometry].apply_transform(scale_2D)
+                    # only the scale could be moved into the planar geometry
+                    # so the nodes keep their orientation and position
+                    new_geom = scale_3D
                 else:
                     # otherwise apply the full transform
                     result.geometry[geometry].apply_transform(new_geom)
